@@ -35,6 +35,9 @@ TIERS = {
 }
 
 
+HYP = {"C10": (64, 400), "C04": (32, 150), "C17": (64, 400)}  # (sessions, examples per session) in the thorough tier
+
+
 def get_mod(prop):
     if prop == "C10":
         from dst import c10 as m
@@ -86,6 +89,21 @@ def cmd_run(a):
     if xc["mismatches"]:
         print(f"HARNESS-ERROR: non-deterministic runs {xc['mismatches'][:10]}", flush=True)
         return 2
+    # thorough tier: second search strategy over the same scenario space (Hypothesis-driven generator)
+    hyp_out = None
+    if tier == "thorough" and not a.no_hypothesis:
+        from dst import hyp
+
+        sessions, examples = HYP[a.prop]
+        if os.environ.get("VERIF_BUDGET_S"):
+            sessions = max(16, int(sessions * min(1.0, float(os.environ["VERIF_BUDGET_S"]) / 900)))
+        th = time.time()
+        hyp_out = hyp.run(mod, ns, batch_seed, tier, sessions, examples, workers)
+        hyp_out["wall_s"] = round(time.time() - th, 1)
+        for k, scn, v in hyp_out["failures"]:
+            out["violations"].append((10 ** 9 + k, scn, v))
+        print(f"[{a.prop}] hypothesis: sessions={hyp_out['sessions']} examples={hyp_out['examples']} "
+              f"failures={len(hyp_out['failures'])} errors={len(hyp_out['errors'])} wall={hyp_out['wall_s']}s", flush=True)
     # violations
     known = engine.load_known()
     exit_code = 0
@@ -125,6 +143,13 @@ def cmd_run(a):
     ev = mod.evidence(out, tier=tier, seed=batch_seed, wall=wall, wall_batch=wall_batch, cross=xc,
                       known_hits={fp: n for fp, (kf, n) in known_hits.items()},
                       violations=sum(len(x) for x in reported.values()), workers=workers, ns=ns)
+    if hyp_out is not None:
+        ev["coverage"]["hypothesis_second_strategy"] = {
+            "sessions": hyp_out["sessions"], "examples": hyp_out["examples"], "failing_sessions": len(hyp_out["failures"]),
+            "internal_errors": [e for _, e in hyp_out["errors"]][:5], "timeouts": hyp_out["timeouts"], "wall_s": hyp_out["wall_s"],
+            "note": "st.randoms(use_true_random=False) drives the same generators; database off; one session per derived seed"}
+        if hyp_out["errors"]:
+            ev["coverage"].setdefault("warnings", []).append(f"{len(hyp_out['errors'])} hypothesis session(s) ended with an internal error (not counted as pass or violation)")
     path = engine.write_evidence(a.prop, ev)
     cov = ev["coverage"]
     print(f"[{a.prop}] runs={out['done']}/{out['planned']} wall={wall:.1f}s runs_per_hour={cov.get('runs_per_hour')} "
@@ -205,6 +230,7 @@ def main():
     r.add_argument("--runs", type=int)
     r.add_argument("--workers", type=int)
     r.add_argument("--opts")
+    r.add_argument("--no-hypothesis", action="store_true")
     d = sub.add_parser("digests")
     d.add_argument("prop")
     d.add_argument("--tier")
